@@ -192,10 +192,14 @@ class VFS:
             if 'b' not in mode:
                 raise EngineLimit('gap file opened in text mode')
             return _Reader(SymBytes([Seg('opaque', fid=f.marker, off=0, count=Markers.table[f.marker])]))
-        if f.kind == 'symtext':
-            return _Reader(f.content if 'b' not in mode else f.content.encode('utf-8'))
-        if f.kind == 'text':
-            return _Reader(f.content if 'b' not in mode else f.content.encode('utf-8'))
+        if f.kind in ('symtext', 'text'):
+            if 'b' in mode:
+                return _Reader(f.content.encode('utf-8'))
+            enc = (kw.get('encoding') or (a[1] if len(a) > 1 else None) or 'utf-8').lower().replace('_', '-')
+            if enc in ('utf-8', 'utf8'):
+                return _Reader(f.content)
+            # the file holds UTF-8; read through another codec it comes out as that codec sees those bytes
+            return _Reader(f.content.encode('utf-8').decode(enc, kw.get('errors') or 'strict'))
         if f.kind == 'written':
             if all(isinstance(c, (bytes, bytearray)) for c in f.content):
                 data = b''.join(f.content)
